@@ -13,7 +13,7 @@ exec 9>/tmp/mutfast.lock; flock 9
 mkdir -p $W/verif
 export CARGO_NET_OFFLINE=true
 if [ ! -e $W/repo/.git ]; then git -C /repo worktree add --detach $W/repo HEAD >/dev/null 2>&1 || { echo "worktree failed"; exit 2; }; fi
-( cd $W/repo && git checkout -q --detach "${BASE:-$(git -C /repo rev-parse HEAD)}" && git reset -q --hard && git clean -qfd ) || exit 2
+( cd $W/repo && git reset -q --hard && git checkout -q --detach "${BASE:-$(git -C /repo rev-parse HEAD)}" && git reset -q --hard && git clean -qfd ) || exit 2
 ( cd $W/repo && git apply "$PATCH" ) || { echo "patch does not apply"; exit 2; }
 rsync -a --delete --exclude 'target*' /verif/harness $W/verif/
 rm -rf $W/verif/known_findings.d $W/verif/evidence $W/verif/replays; cp -r /verif/known_findings.json $W/verif/ 2>/dev/null; cp -r "${KFDIR:-/verif/known_findings.d}" $W/verif/known_findings.d
